@@ -174,6 +174,10 @@ pub enum Settle {
     Idle,
     Dead,
     Timeout,
+    /// The worker thread is alive and asleep, not at the gate, requests sent > requests done, and neither the
+    /// counters nor the trace moved during the last 0.8 s of observation: it waits for requests although, by the
+    /// store's own accounting, some are unprocessed. Nobody else is sending, so this state cannot change any more.
+    Stuck(String),
 }
 
 pub struct Runner<'a> {
@@ -200,6 +204,9 @@ pub type Tail<'t> = &'t mut dyn FnMut(&mut Runner, &mut dyn Observer) -> Result<
 pub fn settle_raw(rl: Option<&raft_log::RaftLog<crate::store::V>>, worker_tid: &mut Option<i32>) -> Settle {
     let t0 = util::now_s();
     let mut spins = 0u32;
+    let mut last_sample = 0.0f64;
+    let mut stuck_sig = None;
+    let mut stuck_n = 0u32;
     loop {
         for (tid, w, _a) in trace::gate_lanes(Role::Worker) {
             if let Some(p) = w {
@@ -218,8 +225,26 @@ pub fn settle_raw(rl: Option<&raft_log::RaftLog<crate::store::V>>, worker_tid: &
                 return Settle::Dead;
             }
         }
-        if util::now_s() - t0 > 10.0 {
+        let el = util::now_s() - t0;
+        if el > 10.0 {
             return Settle::Timeout;
+        }
+        if el > 1.5 && util::now_s() - last_sample > 0.1 {
+            last_sample = util::now_s();
+            if let (Some(t), Some(rl)) = (*worker_tid, rl) {
+                let state = std::fs::read_to_string(format!("/proc/self/task/{}/stat", t)).ok().and_then(|x| x.rsplit(") ").next().and_then(|r| r.chars().next()));
+                let sig = (state, rl.verif_worker_seq(), trace::ev_count());
+                if state == Some('S') && stuck_sig == Some(sig) {
+                    stuck_n += 1;
+                    if stuck_n >= 8 {
+                        let (s, d) = rl.verif_worker_seq();
+                        return Settle::Stuck(format!("worker thread asleep outside the gate with {} request(s) sent but only {} done; nothing moved for 0.8 s", s, d));
+                    }
+                } else {
+                    stuck_sig = Some(sig);
+                    stuck_n = 0;
+                }
+            }
         }
         spins += 1;
         if spins < 2000 {
@@ -281,6 +306,14 @@ impl<'a> Runner<'a> {
                     return Ok(());
                 }
                 Settle::Timeout => return Err(RunErr::Inconclusive(format!("step {}: worker neither parked nor idle after 10 s", self.step_ix))),
+                Settle::Stuck(why) => {
+                    // a request got lost inside the worker: its write/sync/callback/unlink never happens
+                    let unacked: Vec<u64> = self.flushes.iter().filter(|f| f.cb && f.call_ok && trace::ack_state(f.id).is_none()).map(|f| f.id).collect();
+                    if trace::fired_faults() == 0 && !unacked.is_empty() {
+                        return Err(RunErr::Viol(sviol("C04", "callback_never_invoked:request_lost_by_the_worker", format!("{}; flush call(s) {:?} with a callback were never acknowledged although no I/O error was injected", why, unacked), self.case, self.step_ix)));
+                    }
+                    return Err(RunErr::Inconclusive(format!("step {}: {}", self.step_ix, why)));
+                }
             }
         }
     }
@@ -615,7 +648,7 @@ fn concurrent_readers(r: &mut Runner, obs: &mut dyn Observer) -> Result<(), RunE
                         dead = true;
                         break;
                     }
-                    Settle::Timeout => {
+                    Settle::Timeout | Settle::Stuck(_) => {
                         drained = Err(RunErr::Inconclusive("worker did not settle during concurrent reads".into()));
                         break;
                     }
